@@ -14,7 +14,7 @@ import os
 from .common import LEAN_DIR
 from .live import lean_str, LiveError
 
-BUILTIN_CALLS = {'len', 'int', 'list', 'tuple', 'set', 'sorted', 'any', 'all', 'max', 'min'}
+BUILTIN_CALLS = {'len', 'int', 'list', 'tuple', 'set', 'sorted', 'any', 'all', 'max', 'min', 'enumerate'}
 MUTATORS = {'add', 'append', 'update'}
 BINOPS = {ast.Add: '+', ast.Sub: '-', ast.Mult: '*', ast.Div: '/', ast.Mod: '%'}
 CMPOPS = {ast.Eq: '==', ast.NotEq: '!=', ast.Lt: '<', ast.LtE: '<=', ast.Gt: '>', ast.GtE: '>=',
@@ -28,7 +28,7 @@ BCTOR = {'+': 'add', '-': 'sub', '*': 'mul', '/': 'div', '%': 'mod', 'neg': 'neg
          'isinstance:list': 'isList', 'isinstance:tuple': 'isTuple', 'isinstance:dict': 'isDict',
          'isinstance:Counter': 'isCounter', 'Counter': 'counter', 're.compile': 'reCompile', '.union': 'union',
          '.get': 'get', '.items': 'items', '.keys': 'keys', '.most_common': 'mostCommon', '.lower': 'lower',
-         '.count': 'count', 'deepcopy': 'deepcopy'}
+         '.count': 'count', 'deepcopy': 'deepcopy', 'enumerate': 'enumerate'}
 
 # lean name -> (module, locator[, extra parameters: closure variables / attributes of self the function reads]).  A locator is a path of names through classes / functions; the special
 # head 'AGGREGATORS' reads entry <key>, component <func|finaliser> of join's aggregator table.
@@ -61,6 +61,9 @@ FUNCTIONS = [
     ('loop_add_computed_field', 'dataflows.processors.add_computed_field', ['add_computed_field', 'func', '@for:-1']),
     ('loop_unpivot', 'dataflows.processors.unpivot', ['unpivot', 'func', '@for:-1']),
     ('loop_delete_resource', 'dataflows.processors.delete_resource', ['delete_resource', 'func', '@for:-1']),
+    # the validator loop; `on_error` is a user callable that may update the row it is given (clear does): its calls are
+    # hoisted into `extCall` statements, which write the updated arguments back
+    ('loop_schema_validator', 'dataflows.base.schema_validator', ['schema_validator', '@for:-1'], [], {'wb': ['on_error']}),
 ]
 AGG_KEYS = ['sum', 'avg', 'median', 'max', 'min', 'first', 'last', 'count', 'any', 'set', 'array', 'counters']
 
@@ -72,8 +75,23 @@ def lean_int(i):
 class Tr:
     """one function → Lean text"""
 
-    def __init__(self):
+    def __init__(self, wb=()):
         self.notes = []
+        self.wb = set(wb)
+        self.tmp = 0
+
+    def hoist(self, test):
+        """`f(args)` / `not f(args)` with f a write-back callable -> (extCall statement, condition over its result)"""
+        neg = isinstance(test, ast.UnaryOp) and isinstance(test.op, ast.Not)
+        call = test.operand if neg else test
+        if isinstance(call, ast.Call) and isinstance(call.func, ast.Name) and call.func.id in self.wb and not call.keywords \
+                and not any(isinstance(a, ast.Starred) for a in call.args):
+            self.tmp += 1
+            t = '$call%d' % self.tmp
+            stmt = '(.extCall %s %s %s)' % (lean_str(t), lean_str(call.func.id), self.args([self.e(a) for a in call.args]))
+            cond = '(.var %s)' % lean_str(t)
+            return stmt, ('(.not %s)' % cond if neg else cond)
+        return None
 
     # ---- expressions
     def args(self, items):
@@ -288,7 +306,19 @@ class Tr:
                 return self.sunsup('augmented assignment')
             return '(.assign %s %s)' % (lean_str(nm), self.call(op, ['(.var %s)' % lean_str(nm), self.e(n.value)]))
         if isinstance(n, ast.If):
+            h = self.hoist(n.test)
+            if h:
+                return '(.seq %s (.ite %s %s %s))' % (h[0], h[1], self.seq(n.body), self.seq(n.orelse) if n.orelse else '.skip')
             return '(.ite %s %s %s)' % (self.e(n.test), self.seq(n.body), self.seq(n.orelse) if n.orelse else '.skip')
+        if isinstance(n, ast.Try):
+            if len(n.handlers) != 1 or n.orelse or n.finalbody or len(n.body) != 1 \
+                    or not isinstance(n.body[0], (ast.Assign, ast.AugAssign, ast.Expr)):
+                return self.sunsup('try statement outside the atomic form')
+            hd = n.handlers[0]
+            exc = self.typename(hd.type) if hd.type is not None else None
+            if exc is None:
+                return self.sunsup('except clause')
+            return '(.tryExcept %s %s %s %s)' % (self.s(n.body[0]), lean_str(exc), lean_str(hd.name or '$exc'), self.seq(hd.body))
         if isinstance(n, ast.Return):
             return '(.ret %s)' % (self.e(n.value) if n.value is not None else '(.const .none)')
         if isinstance(n, ast.For):
@@ -401,8 +431,8 @@ def translate_all():
             trees[m] = module_tree(m)
         return trees[m]
 
-    def one(name, node, extra=()):
-        tr = Tr()
+    def one(name, node, extra=(), opts=None):
+        tr = Tr(wb=(opts or {}).get('wb', ()))
         if node is None:
             text = '{ params := [], body := (.unsupported "function not found in the working tree"), gen := false }'
             out.append((name, text, ['not found']))
@@ -411,7 +441,7 @@ def translate_all():
 
     for spec in FUNCTIONS:
         name, modname, path = spec[:3]
-        one(name, locate(tree_of(modname), path), spec[3] if len(spec) > 3 else ())
+        one(name, locate(tree_of(modname), path), spec[3] if len(spec) > 3 else (), spec[4] if len(spec) > 4 else None)
     jt = tree_of('dataflows.processors.join')
     aggs = aggregator_nodes(jt)
     for key in AGG_KEYS:
